@@ -12,7 +12,10 @@ from worlds.decgen import canon_line, canon_tok
 
 COMMENT_TEXTS = ["comment", " a ; semicolon ; inside", "Decay fake", "Enddecay", "End", "# double", " trailing spaces   ",
                  "1.0 K+ K- PHSP;", "tab\there", ""]
-NONASCII = ["über Zerfälle — π⁺π⁻", "ΔΓ/Γ ≈ 0.1 ± 0.02", "注释 comment", "naïve façade"]
+NONASCII = ["über Zerfälle — π⁺π⁻", "ΔΓ/Γ ≈ 0.1 ± 0.02", "注释 comment", "naïve façade",
+            # characters that str.splitlines() treats as line ends but a text file and the grammar do not: they are ordinary
+            # comment characters (an editor's page break, NEL from a mainframe export, Unicode line/paragraph separators)
+            "old table:\x0cDefine junk 1.0", "vt\x0bAlias A B", "fs\x1cgs\x1drs\x1eEnd", "nel\x85Enddecay", "ls\u2028ps\u2029CDecay X"]
 
 KNOB_DEFAULTS = {
     "mode": "files",          # files | string
